@@ -1358,21 +1358,36 @@ func TestVerifKF_C19_arrow_decimal_overflow(t *testing.T) {
 // sometimes overwritten with the millisecond count ("11TP/1.1 200 OK").
 func TestVerifKF_C19_arrow_header_race(t *testing.T) {
 	e := c19NewEnv(t)
-	bad, what := 0, ""
-	n := verifkit.Scale(4000, 12000)
-	for a := 0; a < n; a++ {
-		r, err := e.post("/api/v1/query/arrow", "SELECT 1 AS x", nil)
-		if err != nil {
-			bad++
-			what = err.Error()
-			continue
-		}
-		if rows, ok := c19ArrowRows(r.Body); r.Status != 200 || !ok || rows != 1 {
-			bad++
-			what = fmt.Sprintf("status=%d readable=%v rows=%d", r.Status, ok, rows)
-		}
+	var mu sync.Mutex
+	bad, total, what := 0, 0, ""
+	per := verifkit.Scale(600, 2500)
+	var wg sync.WaitGroup
+	// a few concurrent clients: the window is a goroutine interleaving, so it
+	// opens more often when the scheduler is busy
+	for w := 0; w < 8; w++ {
+		wg.Add(1)
+		go func() {
+			defer wg.Done()
+			for a := 0; a < per; a++ {
+				r, err := e.post("/api/v1/query/arrow", "SELECT 1 AS x", nil)
+				msg := ""
+				if err != nil {
+					msg = err.Error()
+				} else if rows, ok := c19ArrowRows(r.Body); r.Status != 200 || !ok || rows != 1 {
+					msg = fmt.Sprintf("status=%d readable=%v rows=%d", r.Status, ok, rows)
+				}
+				mu.Lock()
+				total++
+				if msg != "" {
+					bad++
+					what = msg
+				}
+				mu.Unlock()
+			}
+		}()
 	}
-	verifkit.KnownFinding(c19FindArrowRace, bad > 0, fmt.Sprintf("%d of %d identical tiny Arrow requests came back with a corrupted HTTP/IPC framing (last: %s)", bad, n, what))
+	wg.Wait()
+	verifkit.KnownFinding(c19FindArrowRace, bad > 0, fmt.Sprintf("%d of %d identical tiny Arrow requests came back with a corrupted HTTP/IPC framing (last: %s)", bad, total, what))
 }
 
 // A BLOB whose bytes are not valid UTF-8 is copied raw into the JSON string, so
